@@ -101,6 +101,21 @@ def oracle(cfg, lines, files, src, impl, rep, case):
             exp.append(("minus", "0123456789ab..76543210fedc"))
             continue
         exp += expected_rows(cfg, f)
+    # placement: the hunk rows of a file section stand between that section's header row and the next one's
+    if hunk_rows == exp and src == "git" and not cfg.d["fileRaw"] and not cfg.d["fileOmit"]:
+        chunks, cur = [], None
+        for k, t in rows:
+            if k == "file":
+                cur = []; chunks.append(cur)
+            elif k in ("minus", "plus", "zero") and cur is not None:
+                cur.append((k, t))
+        per_file = []
+        for f in files:
+            per_file.append([("minus", "0123456789ab..76543210fedc")] if f.get("submodule") else expected_rows(cfg, f))
+        if len(chunks) == len(files) and chunks != per_file:
+            j = next(j for j, (a, b) in enumerate(zip(chunks, per_file)) if a != b)
+            rep.violation("hunk-rows-misplaced:" + files[j]["kind"],
+                          f"section {j} ({files[j]['kind']}): rows under its header {chunks[j][:3]!r}…, its hunk lines {per_file[j][:3]!r}…", case)
     if hunk_rows != exp:
         j = next((j for j, (a, b) in enumerate(zip(hunk_rows, exp)) if a != b), min(len(hunk_rows), len(exp)))
         got = hunk_rows[j] if j < len(hunk_rows) else None
